@@ -70,7 +70,9 @@ class History(object):
     return snapshot.take(self.proc)
 
   def violation(self, mech, summary, detail=None):
-    d = {'history_seed': self.seed, 'step': self.step_no, 'log_tail': self.log[-12:]}
+    import os
+    d = {'history_seed': self.seed, 'step': self.step_no,
+         'log_tail': list(self.log) if os.environ.get('VERIF_FULL_LOG') else self.log[-12:]}
     if detail:
       d.update(detail)
     self.acc.violation(mech, summary, d)
@@ -201,6 +203,26 @@ class ShadowMonitor(Monitor):
     h.acc.case(nontrivial_hash(ctx), {'bundle': ctx.bundle, 'stored': ctx.reply.stored[:6]} if ctx.reply and ctx.reply.stored else None)
 
 
+def reference_was_stale(h, Sref, Scur):
+  """
+  Attribution (DESIGN.md 3.6): Sref is a state the engine computed earlier, Scur the state now, and
+  they differ. If they differ only in formula cells (so the data is the same) and a from-scratch
+  recalculation of that data disagrees with Sref, the *reference* state was not a fixpoint: the
+  comparison is void and the case is C05's finding (incremental != from scratch), not a failure
+  to restore.
+  """
+  from vlib import reload
+  kind, d = trace_kind(Sref, Scur)
+  if kind != 'formula_cells':
+    return False
+  try:
+    F, _ = reload.scratch_snapshot(h.proc)
+  except Exception:      # pylint: disable=broad-except
+    return False
+  h.acc.count('scratch_recalcs')
+  return bool(snapshot.diff(Sref, F, maxn=1))
+
+
 class UndoRedoMonitor(Monitor):
   """C01 + C03: undo each successful bundle, compare with S0; redo its stored actions, compare with S1."""
   MUTATES = True
@@ -241,6 +263,9 @@ class UndoRedoMonitor(Monitor):
     S0u = h.snap()
     if self.check_undo:
       d = snapshot.diff(ctx.S0, S0u)
+      if d and reference_was_stale(h, ctx.S0, S0u):
+        acc.count('prestate_not_a_fixpoint')
+        d = None
       if d:
         h.violation(self._mech('undo_diff', ctx, d), 'state after undo differs from state before bundle %s: %s' % (
             action_kinds(ctx.bundle), d[:3]), {'bundle': ctx.bundle, 'diff': d, 'undo': r.undo[:20]})
@@ -256,6 +281,9 @@ class UndoRedoMonitor(Monitor):
     S1r = h.snap()
     if self.check_redo:
       d = snapshot.diff(ctx.S1, S1r)
+      if d and reference_was_stale(h, ctx.S1, S1r):
+        acc.count('poststate_not_a_fixpoint')
+        d = None
       if d:
         h.violation(self._mech('redo_diff', ctx, d), 'state after undo+redo differs from state after bundle %s: %s' % (
             action_kinds(ctx.bundle), d[:3]), {'bundle': ctx.bundle, 'diff': d, 'stored': r.stored[:20]})
